@@ -14,3 +14,10 @@ pub fn verif_into_iter<I: IntoIterator>(i: I) -> (r: I::IntoIter)
 {
     i.into_iter()
 }
+
+// trusted: a Vec handed over by value yields its elements in order (std: `impl IntoIterator for Vec<T>`)
+#[verifier::external_body]
+pub proof fn axiom_vec_into_items<T>(v: Vec<T>)
+    ensures into_items(v) == v@, into_lawful(v),
+{
+}
